@@ -186,3 +186,692 @@ func cyclicTemplateValueRule(c *Ctx) {
 func init() {
 	addRule("C19", Rule{ID: "C19.R9", Min: 1, Statement: "no admitted template function can build a self-referential value (printing one overflows the stack: an unrecoverable crash)", Run: cyclicTemplateValueRule})
 }
+
+// ---------------------------------------------------------------------------------------------
+// appliedObjectRule (C03.R8 / C02.R6 / C06.R13)
+//
+// The client decodes the API server's answer into the object that is handed to Patch/Update. The
+// phase reconciler probes, and reports in status, the object its reconcile function returns. Two
+// structural consequences:
+//   (a) the object the patcher applies with is the object the reconcile function goes on with —
+//       otherwise the freshly written generation/resourceVersion is thrown away and a stale copy is
+//       probed (a phase passes on the pre-patch state of its object);
+//   (b) between the adoption bookkeeping the caller did on that object (owner references, revision)
+//       and the apply, the patcher does not overwrite it (DeepCopyInto, a reader Get, Set*): the
+//       apply would carry the pre-handover owner list.
+func appliedObjectRule(c *Ctx) {
+	p := c.P
+	n := 0
+	for _, fn := range p.FuncsIn(pkgControllers) {
+		for _, call := range callsIn(fn) {
+			cc := call.Common
+			if !cc.IsInvoke() || cc.Method.Name() != "Patch" || namedTypeString(cc.Value.Type()) != pkgControllers+".patcher" {
+				continue
+			}
+			// implementations of the interface method in the workspace
+			var impls []*ssa.Function
+			for _, f := range p.productFuncs() {
+				if f.Parent() == nil && f.Name() == "Patch" && f.Signature.Recv() != nil && len(f.Params) == len(cc.Args)+1 &&
+					types.Identical(stripRecv(f.Signature), cc.Method.Type()) {
+					impls = append(impls, f)
+				}
+			}
+			if len(impls) == 0 {
+				c.Ob(fn, "patcher-implementations", call.Instr, c.rule.Statement).Unknown("no implementation of the patcher interface found")
+				continue
+			}
+			for _, impl := range impls {
+				var apply *WriterSite
+				for _, ws := range allWriterSites([]*ssa.Function{impl}) {
+					if ws.Verb == "Patch" {
+						w := ws
+						apply = &w
+					}
+				}
+				n++
+				o := c.Ob(impl, "applies-with-returned-object", nil, c.rule.Statement)
+				if apply == nil {
+					o.Unknown("no writer Patch in this patcher implementation")
+					continue
+				}
+				prm, isParam := stripConv(apply.Obj).(*ssa.Parameter)
+				if !isParam {
+					o.Fail("the apply is issued with %s, which is not one of the objects handed in by the reconcile function: the API server's answer is decoded into an object the caller never sees", p.describe(apply.Obj))
+					continue
+				}
+				idx := -1
+				for i, q := range impl.Params {
+					if q == prm {
+						idx = i
+					}
+				}
+				if idx < 1 || idx-1 >= len(cc.Args) {
+					o.Unknown("applied parameter not resolved")
+					continue
+				}
+				arg := cc.Args[idx-1]
+				// (a) the caller returns that object on the success paths after the call
+				bad := ""
+				for _, rc := range p.returnCases(fn) {
+					if len(rc.Results) < 2 || !isNilConst(stripConv(rc.Results[len(rc.Results)-1])) {
+						continue
+					}
+					if !canPrecede(call.Instr, rc.Ret) {
+						continue
+					}
+					if !p.sameValue(rc.Results[0], arg) {
+						bad = fmt.Sprintf("the reconcile function returns %s (at %s) but the patcher applies with its argument %s: the server's answer (new generation, resourceVersion) is decoded into an object that is dropped, and the returned, stale copy is what gets probed", p.describe(rc.Results[0]), p.IPos(rc.Ret), p.describe(arg))
+					}
+				}
+				if bad != "" {
+					o.Fail("%s", bad)
+				} else {
+					o.OK()
+				}
+				// (b) not overwritten before the apply
+				o2 := c.Ob(impl, "prepared-object-not-overwritten", apply.Call.Instr, c.rule.Statement)
+				var over []string
+				for _, b := range impl.Blocks {
+					for _, in := range b.Instrs {
+						if in == apply.Call.Instr || !canPrecede(in, apply.Call.Instr) {
+							continue
+						}
+						hit := p.mutatesObject(in, prm)
+						if ci, ok := in.(ssa.CallInstruction); ok && calleeName(ci.Common()) == "DeepCopyInto" {
+							args := callArgs(ci.Common())
+							if len(args) > 0 && p.sameValue(args[len(args)-1], prm) {
+								hit = true
+							}
+							if r := callRecv(ci.Common()); r != nil && p.sameValue(r, prm) {
+								hit = false // the prepared object is only the source of the copy
+							}
+						}
+						if hit {
+							over = append(over, describeInstr(p, in)+" at "+p.IPos(in))
+						}
+					}
+				}
+				if len(over) == 0 {
+					o2.OK()
+				} else {
+					o2.Fail("the object prepared by the reconcile function (owner references, revision) is overwritten before the apply reads it: %s — the apply then carries the pre-handover owner list", strings.Join(dedupe(over), "; "))
+				}
+			}
+		}
+	}
+	if n == 0 {
+		c.AnchorLost("call of patcher.Patch in " + pkgControllers)
+	}
+}
+
+func stripRecv(sig *types.Signature) *types.Signature {
+	return types.NewSignatureType(nil, nil, nil, sig.Params(), sig.Results(), sig.Variadic())
+}
+
+const appliedObjectStatement = "the patcher applies with the very object the reconcile function prepared and goes on to return (and probe), and does not overwrite it before the apply"
+
+func init() {
+	addRule("C03", Rule{ID: "C03.R8", Min: 2, Statement: appliedObjectStatement, Run: appliedObjectRule})
+	addRule("C02", Rule{ID: "C02.R6", Min: 2, Statement: appliedObjectStatement, Run: appliedObjectRule})
+	addRule("C06", Rule{ID: "C06.R13", Min: 2, Statement: appliedObjectStatement, Run: appliedObjectRule})
+}
+
+func describeInstr(p *Program, in ssa.Instruction) string {
+	if v, ok := in.(ssa.Value); ok {
+		return p.describe(v)
+	}
+	if ci, ok := in.(ssa.CallInstruction); ok {
+		return "call of " + calleeName(ci.Common())
+	}
+	return in.String()
+}
+
+// ---------------------------------------------------------------------------------------------
+// reconcilerOrderRule (C06.R14 / C14.R7)
+//
+// Controllers run a list of sub-reconcilers on one in-memory owner object. A step that *writes the
+// owner object through the client* (Update/Patch/Status().Update of owner.ClientObject()) gets the
+// API server's answer decoded into that very object — everything an earlier step changed only in
+// memory is gone. Therefore no step that refreshes the owner may run after a step that enriches the
+// owner's spec in memory (the slice loader inlines ObjectSlice objects with SetPhases): the steps
+// after it would see the phases without the sliced objects and report status from that.
+func reconcilerOrderRule(c *Ctx) {
+	p := c.P
+	n := 0
+	for _, fn := range p.productFuncs() {
+		if fn.Parent() != nil || !strings.HasPrefix(funcPkgPath(fn), modPKO+"/internal/controllers") {
+			continue
+		}
+		for _, b := range fn.Blocks {
+			for _, in := range b.Instrs {
+				st, ok := in.(*ssa.Store)
+				if !ok {
+					continue
+				}
+				fa, ok := st.Addr.(*ssa.FieldAddr)
+				if !ok || fieldName(fa.X.Type(), fa.Field) != "reconciler" {
+					continue
+				}
+				elems, ok := sliceElems(st.Val)
+				if !ok || len(elems) == 0 {
+					continue
+				}
+				n++
+				o := c.Ob(fn, "reconciler-order", in, c.rule.Statement)
+				type step struct {
+					name              string
+					refreshes, enrich bool
+				}
+				var steps []step
+				unresolved := ""
+				for _, e := range elems {
+					m := p.reconcileMethodOf(e)
+					if m == nil {
+						unresolved = p.describe(e)
+						break
+					}
+					s := step{name: shortFuncID(m)}
+					s.refreshes, s.enrich = p.ownerEffects(m)
+					steps = append(steps, s)
+				}
+				if unresolved != "" {
+					o.Unknown("the Reconcile method of list element %s could not be resolved", unresolved)
+					continue
+				}
+				bad := ""
+				enriched := ""
+				for _, s := range steps {
+					if s.refreshes && enriched != "" {
+						bad = fmt.Sprintf("%s writes the owner object through the client after %s changed its spec in memory only (SetPhases): the server's answer overwrites the inlined slice objects, and the following steps reconcile and report status without them", s.name, enriched)
+					}
+					if s.enrich && enriched == "" {
+						enriched = s.name
+					}
+				}
+				if bad != "" {
+					o.Fail("%s", bad)
+				} else {
+					o.OK()
+				}
+			}
+		}
+	}
+	if n < 4 {
+		c.AnchorLost(fmt.Sprintf("controller.reconciler lists (found %d)", n))
+	}
+}
+
+// reconcileMethodOf resolves the Reconcile method of a value stored into a sub-reconciler list.
+func (p *Program) reconcileMethodOf(v ssa.Value) *ssa.Function {
+	v = stripConv(v)
+	if mi, ok := v.(*ssa.MakeInterface); ok {
+		v = mi.X
+	}
+	for _, pv := range p.possibleValues(v) {
+		t := pv.Type()
+		if mi, ok := pv.(*ssa.MakeInterface); ok {
+			t = mi.X.Type()
+		}
+		if _, isIface := t.Underlying().(*types.Interface); isIface {
+			continue
+		}
+		ms := p.SSA.MethodSets.MethodSet(t)
+		for i := 0; i < ms.Len(); i++ {
+			if ms.At(i).Obj().Name() == "Reconcile" {
+				if f := p.SSA.MethodValue(ms.At(i)); f != nil {
+					return f
+				}
+			}
+		}
+	}
+	return nil
+}
+
+// ownerEffects: does the sub-reconciler (incl. the unexported helpers it calls statically) write its
+// owner parameter through the client / change the owner's spec in memory?
+func (p *Program) ownerEffects(m *ssa.Function) (refreshes, enriches bool) {
+	seen := map[*ssa.Function]bool{}
+	var walk func(f *ssa.Function, d int)
+	walk = func(f *ssa.Function, d int) {
+		if f == nil || seen[f] || d > 4 || len(f.Blocks) == 0 {
+			return
+		}
+		seen[f] = true
+		for _, call := range callsIn(f) {
+			cc := call.Common
+			if ws, ok := classifyWriter(call); ok {
+				if oc, _ := asCall(ws.Obj); oc != nil && calleeName(oc.Common()) == "ClientObject" {
+					if r := callRecv(oc.Common()); r != nil && isOwnerAccessor(r.Type()) {
+						refreshes = true
+					}
+				}
+			}
+			if cc.IsInvoke() && cc.Method.Name() == "SetPhases" && isOwnerAccessor(cc.Value.Type()) {
+				enriches = true
+			}
+			if callee := staticCallee(cc); callee != nil && callee.Object() != nil && !callee.Object().Exported() && funcPkgPath(callee) == funcPkgPath(m) {
+				walk(callee, d+1)
+			}
+		}
+		for _, af := range f.AnonFuncs {
+			walk(af, d+1)
+		}
+	}
+	walk(m, 0)
+	return
+}
+
+func isOwnerAccessor(t types.Type) bool {
+	s := namedTypeString(t)
+	return strings.HasPrefix(s, pkgAdapters+".") && strings.HasSuffix(s, "Accessor") || strings.Contains(s, "genericObjectSet")
+}
+
+const reconcilerOrderStatement = "no sub-reconciler that writes the owner object through the client runs after one that changed the owner's spec in memory only"
+
+func init() {
+	addRule("C06", Rule{ID: "C06.R14", Min: 4, Statement: reconcilerOrderStatement, Run: reconcilerOrderRule})
+	addRule("C14", Rule{ID: "C14.R7", Min: 4, Statement: reconcilerOrderStatement, Run: reconcilerOrderRule})
+}
+
+// ---------------------------------------------------------------------------------------------
+// C08.R8 — "controls nothing" is claimed for archived revisions only.
+//
+// The archive reconciler decides whether an intermediate revision may be archived from the overlap
+// of what it actively reconciles with the next revision. The getter may short-cut that list to
+// "empty" only for an archived ObjectSet (and to "unknown" = nil only while status.controllerOf is
+// not reported). Any other shortcut (paused, unavailable, …) makes a revision that still controls
+// shared objects look disposable.
+func activeObjectsShortcutRule(c *Ctx) {
+	p := c.P
+	n := 0
+	for _, fn := range p.FuncsIn(pkgObjDeploy) {
+		if fn.Parent() != nil || fn.Signature.Recv() == nil || stableName(fn) != "getActivelyReconciledObjects" {
+			continue
+		}
+		for _, rc := range p.returnCases(fn) {
+			if len(rc.Results) != 1 {
+				continue
+			}
+			// a constant-empty answer?
+			empty := false
+			for _, pv := range p.possibleValues(rc.Results[0]) {
+				if isNilConst(stripConv(pv)) {
+					empty = true
+				} else if ln, ok := sliceLiteralLen(pv); ok && ln == 0 {
+					empty = true
+				}
+			}
+			if !empty {
+				continue
+			}
+			n++
+			o := c.Ob(fn, "empty-answer", rc.Ret, c.rule.Statement)
+			justified := func(fs []Fact) bool {
+				for _, f := range fs {
+					if call, _ := asCall(f.Cond); call != nil && f.Pol && calleeName(call.Common()) == "IsArchived" {
+						return true
+					}
+					if x, trueMeansNonNil, ok := errNilTest(f.Cond); ok && f.Pol != trueMeansNonNil {
+						if gc, _ := asCall(x); gc != nil && calleeName(gc.Common()) == "GetStatusControllerOf" {
+							return true
+						}
+					}
+				}
+				return false
+			}
+			b := rc.Ret.Block()
+			ok := justified(rc.Facts)
+			if !ok && rc.Pred == nil && len(b.Preds) > 1 {
+				ok = true
+				for _, pr := range b.Preds {
+					if !justified(p.FactsOnEdge(pr, b)) {
+						ok = false
+					}
+				}
+			}
+			if ok {
+				o.OK()
+			} else {
+				o.Fail("the list of actively reconciled objects is cut short to empty/unknown on a path where the ObjectSet is neither archived nor without reported controllerOf: a revision that still controls objects shared with the next revision looks disposable and is archived (its teardown deletes the shared objects)")
+			}
+		}
+	}
+	if n < 2 {
+		c.AnchorLost(fmt.Sprintf("constant-empty returns of getActivelyReconciledObjects (found %d)", n))
+	}
+}
+
+func init() {
+	addRule("C08", Rule{ID: "C08.R8", Min: 2, Statement: "the getter reports 'reconciles nothing' only for archived ObjectSets (and 'unknown' only while controllerOf is unreported)", Run: activeObjectsShortcutRule})
+}
+
+// ---------------------------------------------------------------------------------------------
+// C13.R12 — the shared template namespace is not read while it is still being filled in map order.
+//
+// A *template.Template value is a namespace shared by all templates parsed into it. A loop over a Go
+// map that both adds templates to the namespace (New/Parse/AddParseTree/Funcs) and executes or looks
+// up templates (Execute/ExecuteTemplate/Lookup/Templates) makes what an execution sees depend on the
+// iteration order: a `define` or a file that another file includes is visible only if the map
+// happened to yield it earlier. Rendering then succeeds or fails at random for an unchanged package.
+func templateNamespaceOrderRule(c *Ctx) {
+	p := c.P
+	n := 0
+	isTemplate := func(v ssa.Value) bool {
+		return v != nil && namedTypeString(v.Type()) == "text/template.Template"
+	}
+	for _, fn := range p.productFuncs() {
+		pk := funcPkgPath(fn)
+		if !strings.HasPrefix(pk, modPKO+"/internal/packages") && pk != pkgTransform && pk != pkgObjTemplate {
+			continue
+		}
+		for _, l := range loopsOf(fn) {
+			// a range over a map?
+			var rng *ssa.Range
+			for _, in := range l.Head.Instrs {
+				if nx, ok := in.(*ssa.Next); ok {
+					if r, ok := nx.Iter.(*ssa.Range); ok {
+						if _, isMap := r.X.Type().Underlying().(*types.Map); isMap {
+							rng = r
+						}
+					}
+				}
+			}
+			if rng == nil {
+				continue
+			}
+			var writes, reads []ssa.Instruction
+			for b := range l.Body {
+				for _, in := range b.Instrs {
+					ci, ok := in.(ssa.CallInstruction)
+					if !ok {
+						continue
+					}
+					cc := ci.Common()
+					recv := callRecv(cc)
+					if !isTemplate(recv) {
+						continue
+					}
+					switch calleeName(cc) {
+					case "New", "Parse", "AddParseTree", "Funcs", "ParseFiles", "ParseGlob", "ParseFS":
+						writes = append(writes, in)
+					case "Execute", "ExecuteTemplate", "Lookup", "Templates", "DefinedTemplates":
+						reads = append(reads, in)
+					}
+				}
+			}
+			if len(writes) == 0 && len(reads) == 0 {
+				continue
+			}
+			n++
+			o := c.Ob(fn, "template-namespace-in-map-range", rng, c.rule.Statement)
+			if len(writes) > 0 && len(reads) > 0 {
+				o.Fail("this loop over a map both adds templates to the shared namespace (%s) and executes/looks up templates (%s): what an execution sees depends on the map's iteration order, so cross-file definitions and includes render or fail at random", p.IPos(writes[0]), p.IPos(reads[0]))
+			} else {
+				o.OK()
+			}
+		}
+	}
+	if n < 2 {
+		c.AnchorLost(fmt.Sprintf("map-range loops that touch a template namespace (found %d)", n))
+	}
+}
+
+func init() {
+	addRule("C13", Rule{ID: "C13.R12", Min: 2, Statement: "a loop over a map does not both fill the shared template namespace and execute templates from it", Run: templateNamespaceOrderRule})
+}
+
+// ---------------------------------------------------------------------------------------------
+// controllerLoopRule (C15.R9 / C09.R8 / C18.R8 / C06.R15)
+//
+// Every controller runs its sub-reconciler list and then persists status. Two structural
+// obligations on the controller's Reconcile:
+//   (1) a return that can follow a sub-reconciler call and may carry a nil error either returns the
+//       error of the status update or is preceded by it — what the sub-reconcilers decided (Invalid,
+//       Available, controllerOf, requeue reasons) exists only in memory until then;
+//   (2) a return with a possibly-nil error *before* the list runs is justified by deletion/archival
+//       handling, a foreign class, or NotFound — not by the pause flag or anything else: the
+//       sub-reconcilers handle pause themselves and are what refreshes Available/controllerOf for the
+//       object's current generation.
+func controllerLoopRule(c *Ctx) {
+	p := c.P
+	n := 0
+	for _, fn := range p.productFuncs() {
+		if fn.Parent() != nil || fn.Name() != "Reconcile" || fn.Signature.Recv() == nil || !strings.HasPrefix(funcPkgPath(fn), modPKO+"/internal/controllers") {
+			continue
+		}
+		if fn.Signature.Params().Len() != 2 || namedTypeString(fn.Signature.Params().At(1).Type()) != "sigs.k8s.io/controller-runtime/pkg/reconcile.Request" {
+			continue
+		}
+		if funcPkgPath(fn) == modPKO+"/internal/controllers/packages" {
+			continue // the Package controller deliberately runs a dedicated status step while paused (not part of these properties)
+		}
+		// the sub-reconciler invocations
+		var sites []ssa.Instruction
+		for _, call := range callsIn(fn) {
+			cc := call.Common
+			if cc.IsInvoke() && cc.Method.Name() == "Reconcile" {
+				sites = append(sites, call.Instr)
+			}
+		}
+		if len(sites) == 0 {
+			continue
+		}
+		n++
+		isStatusCall := func(v ssa.Value) bool {
+			for _, pv := range p.possibleValues(v) {
+				call, _ := asCall(pv)
+				if call == nil {
+					return false
+				}
+				nm := calleeName(call.Common())
+				if ws, isW := classifyWriter(Call{Instr: call, Common: call.Common(), Fn: call.Parent()}); isW && strings.HasPrefix(ws.Verb, "Status.") {
+					continue
+				}
+				if !strings.Contains(nm, "pdateStatus") && !strings.Contains(nm, "StatusFromError") {
+					return false
+				}
+			}
+			return true
+		}
+		for _, rc := range p.returnCases(fn) {
+			if fn.Recover != nil && rc.Ret.Block() == fn.Recover {
+				continue
+			}
+			if len(rc.Results) != 2 {
+				continue
+			}
+			errv := rc.Results[1]
+			mayNil := false
+			for _, pv := range p.possibleValues(errv) {
+				if isNilConst(stripConv(pv)) {
+					mayNil = true
+				} else {
+					if call, _ := asCall(pv); call != nil && !definitelyNonNil(pv) {
+						mayNil = true
+					}
+					if _, isPhi := stripConv(pv).(*ssa.Phi); isPhi {
+						mayNil = true
+					}
+				}
+			}
+			if !mayNil {
+				continue
+			}
+			after := false
+			for _, s := range sites {
+				if canPrecede(s, rc.Ret) {
+					after = true
+				}
+			}
+			if after {
+				o := c.Ob(fn, "status-persisted-before-return", rc.Ret, "a return that can follow the sub-reconcilers and may be error-free persists status first")
+				if isStatusCall(errv) || p.mustPrecede(rc.Ret, func(in ssa.Instruction) bool {
+					ci, ok := in.(ssa.CallInstruction)
+					return ok && strings.Contains(calleeName(ci.Common()), "pdateStatus")
+				}) {
+					o.OK()
+				} else if knownErrNonNil(p, errv, rc.Facts) {
+					o.OK("error return")
+				} else {
+					o.Fail("this return can follow a sub-reconciler call with a nil error (e.g. a requeue request) without the status update: conditions the sub-reconcilers set only in memory (Invalid, Available, controllerOf, Paused) are never persisted for that outcome")
+				}
+				continue
+			}
+			// before the list
+			o := c.Ob(fn, "chain-skipped-only-for-deletion", rc.Ret, "the sub-reconciler list is skipped only for deletion/archival, a foreign class or NotFound")
+			if earlyExitJustified(p, errv, rc.Facts) || p.mustPrecede(rc.Ret, func(in ssa.Instruction) bool {
+				ci, ok := in.(ssa.CallInstruction)
+				if !ok {
+					return false
+				}
+				nm := calleeName(ci.Common())
+				return strings.Contains(nm, "handleDeletion") || nm == "FreeCacheAndRemoveFinalizer"
+			}) {
+				o.OK()
+			} else {
+				o.Fail("this return skips the sub-reconciler list on a path that is neither deletion/archival handling, a foreign class nor a failed read: the sub-reconcilers are what refreshes Available/controllerOf for the object's current generation (a paused object must still be probed and reported)")
+			}
+		}
+	}
+	if n < 4 {
+		c.AnchorLost(fmt.Sprintf("controller Reconcile functions running a sub-reconciler list (found %d)", n))
+	}
+}
+
+func knownErrNonNil(p *Program, errv ssa.Value, fs []Fact) bool {
+	k := p.key(errv)
+	for _, f := range fs {
+		if x, trueMeansNonNil, ok := errNilTest(f.Cond); ok && f.Pol == trueMeansNonNil && p.key(x) == k {
+			return true
+		}
+	}
+	return false
+}
+
+func earlyExitJustified(p *Program, errv ssa.Value, fs []Fact) bool {
+	// the error of an earlier step that is returned as is (may be nil only because the callee says so)
+	for _, pv := range p.possibleValues(errv) {
+		if call, _ := asCall(pv); call != nil {
+			switch calleeName(call.Common()) {
+			case "IgnoreNotFound":
+				return true
+			}
+		}
+	}
+	if knownErrNonNil(p, errv, fs) {
+		return true
+	}
+	for _, f := range fs {
+		if call, _ := asCall(f.Cond); call != nil {
+			switch calleeName(call.Common()) {
+			case "IsZero":
+				if r := callRecv(call.Common()); r != nil {
+					if gc, _ := asCall(r); gc != nil && calleeName(gc.Common()) == "GetDeletionTimestamp" && !f.Pol {
+						return true
+					}
+				}
+			case "IsArchived", "IsNotFound":
+				if f.Pol {
+					return true
+				}
+			case "IsStatusConditionTrue":
+				if f.Pol {
+					for _, a := range call.Common().Args {
+						if s, ok := constString(a); ok && s == "Archived" {
+							return true
+						}
+					}
+				}
+			}
+		}
+		if b, ok := f.Cond.(*ssa.BinOp); ok && (b.Op == token.NEQ || b.Op == token.EQL) {
+			for _, side := range []ssa.Value{b.X, b.Y} {
+				if gc, _ := asCall(side); gc != nil && calleeName(gc.Common()) == "GetClass" && f.Pol == (b.Op == token.NEQ) {
+					return true
+				}
+			}
+		}
+	}
+	return false
+}
+
+const controllerLoopStatement = "a controller skips its sub-reconciler list only for deletion/archival, a foreign class or NotFound, and persists status before every possibly error-free return that follows it"
+
+func init() {
+	addRule("C15", Rule{ID: "C15.R9", Min: 4, Statement: controllerLoopStatement, Run: controllerLoopRule})
+	addRule("C09", Rule{ID: "C09.R8", Min: 4, Statement: controllerLoopStatement, Run: controllerLoopRule})
+	addRule("C18", Rule{ID: "C18.R8", Min: 4, Statement: controllerLoopStatement, Run: controllerLoopRule})
+	addRule("C06", Rule{ID: "C06.R15", Min: 4, Statement: controllerLoopStatement, Run: controllerLoopRule})
+}
+
+// ---------------------------------------------------------------------------------------------
+// C16.R9 / C10.R7 — the ObjectDeployment is written on every deploy pass.
+//
+// PackageDeployer pre-creates an empty ObjectDeployment, chunks the phases into ObjectSlices and then
+// updates the ObjectDeployment with the rendered template. If that update is skipped on the outcome
+// of comparing the existing object with the desired one (annotations unchanged, hash equal, …), a
+// pass that failed after the pre-create is "repaired" by a pass that writes nothing: the empty
+// template stays forever while the unpacked hash says the package is installed. The update (and the
+// success return before it, inside the retry closure) may depend on error checks only.
+func deployUpdateEveryPassRule(c *Ctx) {
+	p := c.P
+	n := 0
+	var fns []*ssa.Function
+	for _, fn := range p.FuncsIn(pkgPkgDeployX) {
+		root := fn
+		for root.Parent() != nil {
+			root = root.Parent()
+		}
+		if stableName(root) == "Reconcile" && root.Signature.Recv() != nil {
+			fns = append(fns, fn)
+		}
+	}
+	for _, fn := range fns {
+		for _, ws := range allWriterSites([]*ssa.Function{fn}) {
+			if ws.Verb != "Update" {
+				continue
+			}
+			n++
+			o := c.Ob(fn, "deployment-update", ws.Call.Instr, c.rule.Statement)
+			var bad []string
+			for _, f := range p.FactsAt(ws.Call.Instr.Block()) {
+				if !allowedWriteGuard(p, f) {
+					bad = append(bad, p.describeFact(f))
+				}
+			}
+			for _, rc := range p.returnCases(fn) {
+				if len(rc.Results) == 0 || rc.Ret.Block() == ws.Call.Instr.Block() {
+					continue
+				}
+				last := rc.Results[len(rc.Results)-1]
+				if !isNilConst(stripConv(last)) {
+					continue
+				}
+				if canPrecede(ws.Call.Instr, rc.Ret) {
+					continue // success after the write
+				}
+				for _, f := range rc.Facts {
+					if !allowedWriteGuard(p, f) {
+						bad = append(bad, "success return at "+p.IPos(rc.Ret)+" under "+p.describeFact(f))
+					}
+				}
+			}
+			if len(bad) == 0 {
+				o.OK()
+			} else {
+				o.Fail("the update of the ObjectDeployment is conditional on %s: a pass after a failed first attempt (empty pre-created template) can report success without ever writing the rendered template", strings.Join(dedupe(bad), "; "))
+			}
+		}
+	}
+	if n == 0 {
+		c.AnchorLost("client.Update of the ObjectDeployment in the deployment reconciler")
+	}
+}
+
+const pkgPkgDeployX = modPKO + "/internal/packages/internal/packagedeploy"
+
+func init() {
+	st := "the deployment reconciler's update of the ObjectDeployment depends on error checks only (never on a comparison of existing and desired object)"
+	addRule("C16", Rule{ID: "C16.R9", Min: 1, Statement: st, Run: deployUpdateEveryPassRule})
+	addRule("C10", Rule{ID: "C10.R7", Min: 1, Statement: st, Run: deployUpdateEveryPassRule})
+}
